@@ -12,11 +12,33 @@ from ..report import Ob, bad, note, ok, skip
 from ..scope import single_def_value
 from . import ACTION_PROPS, props_of, rule
 
-STATE_MODULES = ("photon_weave.state.fock", "photon_weave.state.polarization", "photon_weave.state.custom_state",
-                 "photon_weave.state.base_state", "photon_weave.state.envelope", "photon_weave.state.composite_envelope")
+class _StateModules:
+    """the modules that hold the state classes: everything under photon_weave.state except the two leaf modules without state code –
+    a class moved into a new file of that package (product_state.py, …) is still scanned"""
+    NOT = {"expansion_levels", "exceptions", "__init__", "temporal_profile"}
+
+    def __contains__(self, name) -> bool:
+        return isinstance(name, str) and name.startswith("photon_weave.state.") and name.split(".")[-1] not in self.NOT
+
+    def __iter__(self):
+        return iter(("photon_weave.state.fock", "photon_weave.state.polarization", "photon_weave.state.custom_state",
+                     "photon_weave.state.base_state", "photon_weave.state.envelope", "photon_weave.state.composite_envelope"))
+
+
+STATE_MODULES = _StateModules()
 APPLY_BODIES = ["Fock.apply_operation", "Polarization.apply_operation", "CustomState.apply_operation",
                 "Envelope.apply_operation", "ProductState.apply_operation"]
 MATRIX_ONLY_FUNCS = {"measure_POVM", "apply_kraus"}   # promotion itself is checked by KRAUS-LEVEL / POVM-LEVEL
+
+
+def is_math_module(name: str) -> bool:
+    """the constructors' modules: photon_weave._math.ops and whatever it is split into"""
+    return name.startswith("photon_weave._math.") or name == "photon_weave._math"
+
+
+def is_generator_module(name: str) -> bool:
+    """the einsum-string generators: photon_weave.extra.einsum_constructor and whatever it is split into (not the interpreter)"""
+    return name.startswith("photon_weave.extra.") and "interpreter" not in name
 
 
 def state_functions(repo: Repo) -> List[FuncInfo]:
@@ -923,12 +945,12 @@ def sandwich(repo: Repo) -> List[Ob]:
     obs: List[Ob] = []
     n_call = 0
     n_lit = 0
-    funcs = state_functions(repo) + [f for f in repo.scan_functions() if f.module.name.endswith("_math.ops") or "fock_dimension" in f.module.name]
+    funcs = state_functions(repo) + [f for f in repo.scan_functions() if is_math_module(f.module.name) or "fock_dimension" in f.module.name]
     for fi in funcs:
         props = _sandwich_props(fi)
         k = 0
         cfg = None
-        if fi.module.name.endswith("_math.ops") and fi.node.name != "apply_kraus":
+        if is_math_module(fi.module.name) and fi.node.name != "apply_kraus":
             continue
         for n in sorted(walk_no_nested(fi.node), key=lambda x: (getattr(x, "lineno", 0), getattr(x, "col_offset", 0))):
             trip = None
